@@ -176,8 +176,14 @@ func c07Store(c *explore.Ctx) {
 				}
 			}
 			key := statekey.Dump(st)
-			if !seen[key] {
-				seen[key] = true
+			var rk []string
+			for t, m := range ref {
+				rk = append(rk, t+"="+msgStr(m))
+			}
+			sort.Strings(rk)
+			bk := key + "|" + strings.Join(rk, ";")
+			if !seen[bk] {
+				seen[bk] = true
 				retCheckStore(c, st, ref, probe, filters, func() any {
 					out := make([]string, len(path))
 					for i, p := range path {
